@@ -158,14 +158,28 @@ Definition sec2gmt_float (bits nd : Z) : bytes :=
   let '(s, ns) := split_sec2gmt (sf_of_bits bits) in fmt_time false s ns nd.
 
 (* ------------------------------------------------------------------ strftime (lestrrat + Miller extensions) *)
-(* extensionRegex "%([1-9])S" -> "%$1", applied to the raw format text (so "%%5S" is rewritten too: the regex
-   does not know that the first '%' of "%5S" is the second byte of "%%") *)
-Fixpoint ext_rewrite (f : bytes) : bytes :=
-  match f with
-  | p :: ((c :: ((s :: t) as r2)) as r1) =>
-      if Ascii.eqb p "%" && in_range "1" "9" c && Ascii.eqb s "S" then p :: c :: ext_rewrite t else p :: ext_rewrite r1
-  | _ => f
+(* rewriteFractionalSecondsSpecifiers (pkg/bifs/datetime.go, after fix: 51c7c7a2d): "%<1-9>S" -> "%<1-9>", scanning left to
+   right and skipping "%%" pairs, so "%%5S" is left alone.  Fuel = length of the format (each step consumes >= 1 byte). *)
+Fixpoint ext_rewrite_fuel (fuel : nat) (f : bytes) : bytes :=
+  match fuel with
+  | O => f
+  | S k =>
+      match f with
+      | p :: q :: t =>
+          if Ascii.eqb p "%" then
+            if Ascii.eqb q "%" then p :: q :: ext_rewrite_fuel k t
+            else
+              match t with
+              | s :: t' =>
+                  if in_range "1" "9" q && Ascii.eqb s "S" then p :: q :: ext_rewrite_fuel k t'
+                  else p :: ext_rewrite_fuel k (q :: t)
+              | [] => f
+              end
+          else p :: ext_rewrite_fuel k (q :: t)
+      | _ => f
+      end
   end.
+Definition ext_rewrite (f : bytes) : bytes := ext_rewrite_fuel (List.length f) f.
 
 Definition frac_sec (x : tm) (nsec : Z) (n : nat) (w : nat) : bytes :=
   padz 2 (tm_s x) ++ "." :: padnn w (nsec / pow10 (9 - n)).
